@@ -57,6 +57,12 @@ Ltac brk_hyp H :=
          | (if ?b then _ else _) = _ => let E := fresh "E" in destruct b eqn:E; try discriminate H
          end.
 Ltac red_set := cbn [set var_beq sp v mk].
+(* case-split the sender pc only when the step function looks at it *)
+Ltac case_c H c :=
+  lazymatch type of H with
+  | (if _ then _ else _) = _ => idtac
+  | _ => destruct c; try discriminate H
+  end.
 
 (* a sender step other than the count does not touch any thread counter *)
 Lemma sender_keeps_threads : forall c f p b' x,
@@ -86,7 +92,7 @@ Proof.
   intros c f p b' a x Hs Ha Hpos Hx Ht. unfold step, step_gen in Hs. cbn [sp v mk fl_wlock fl_route good_flags] in Hs.
   unfold pos in *.
   destruct p; try discriminate Ha; injection Ha as <-;
-    try (destruct c; try discriminate Hs); brk_hyp Hs; injection Hs as <-;
+    case_c Hs c; brk_hyp Hs; injection Hs as <-;
     destruct x; try discriminate Ht; cbn [var_beq] in Hpos; red_set; lia.
 Qed.
 
@@ -98,5 +104,271 @@ Proof.
   intros c f p b' a Hs Ha. unfold step, step_gen in Hs. cbn [sp v mk fl_wlock fl_route good_flags] in Hs.
   unfold pos in *. unfold dst. cbn [fl_route good_flags].
   destruct p; try discriminate Ha;
-    try (destruct c; try discriminate Hs); brk_hyp Hs; injection Hs as <-; red_set; repeat split; lia.
+    case_c Hs c; brk_hyp Hs; injection Hs as <-; red_set; repeat split; lia.
 Qed.
+
+(* ------------------------------------------------------------------------------------------------------- *)
+(* Preservation of the tagged invariant                                                                      *)
+
+Lemma Forall_round_S : forall ts rd lg,
+  Forall (fun n => ts < n <= rd) lg -> Forall (fun n => ts < n <= S rd) lg.
+Proof. intros ts rd lg H. eapply Forall_impl; [|exact H]. cbn. intros a Ha. lia. Qed.
+
+Lemma TInv_init : forall senders others, TInv (tinit senders others).
+Proof.
+  intros a b. unfold TInv, tinit, init. cbn. repeat split; try lia. constructor.
+Qed.
+
+Lemma TInv_step : forall t q t', Inv (base t) -> TInv t -> tstep t q = Some t' -> TInv t'.
+Proof.
+  intros [[c f] x rd ow ts lg] q t' HI (T1 & T2 & T3 & T4 & T5 & T6) Hq.
+  cbn [base tp round towed tsub tlog v sp] in *.
+  unfold tstep, tstep_gen in Hq. cbn [base tp round towed tsub tlog] in Hq.
+  change {| sp := c; v := f |} with (mk c f) in *.
+  destruct q as [p|p].
+  - (* an anonymous thread, or the sender *)
+    destruct (step_gen good_flags (mk c f) p) as [b'|] eqn:Hb; [|discriminate Hq]. fold (step (mk c f) p) in Hb.
+    destruct (src p) as [a|] eqn:Ha.
+    + destruct (pos (v (mk c f) a - (if var_beq x a then 1 else 0))) eqn:Hpos; [|discriminate Hq].
+      injection Hq as <-. cbn [v mk] in Hpos.
+      unfold TInv. cbn [base tp round towed tsub tlog].
+      repeat split; try assumption.
+      eapply anon_keeps_count; eassumption.
+    + destruct (is_count (mk c f) p) eqn:Hc; injection Hq as <-; unfold TInv; cbn [base tp round towed tsub tlog].
+      * (* the count: round + 1, everybody subscribed becomes owed *)
+        destruct (count_keeps_thread c f p b' x Hc Hb T1) as (Hge & _ & -> & Hth).
+        destruct HI as (HC & HL & HP). cbn [sp v mk] in HC, HL, HP. unfold common, lock_inv, phase_inv, idle in *.
+        split; [exact Hth|]. split; [lia|]. split; [exact T3|]. split; [apply Forall_round_S, T4|]. split; [lia|].
+        destruct x; try discriminate T1; cbn [relabel relabels]; try exact I; try (exfalso; lia);
+          try (destruct T6 as (_ & ->); split; reflexivity).
+        (* b0n -> b0o *)
+        destruct ow.
+        { split; [reflexivity|]. split; [lia|]. right. rewrite T6. f_equal. lia. }
+        { split; [reflexivity|]. split; [lia|]. left. exact T6. }
+      * rewrite (sender_keeps_threads c f p b' x Ha Hc Hb T1). repeat split; assumption.
+  - (* the tagged subscriber itself *)
+    destruct (src p) as [a|] eqn:Ha; [|discriminate Hq].
+    destruct (var_beq x a) eqn:Hx; [|discriminate Hq].
+    destruct (step_gen good_flags (mk c f) p) as [b'|] eqn:Hb; [|discriminate Hq]. fold (step (mk c f) p) in Hb.
+    injection Hq as <-. cbn [v mk].
+    destruct (tag_moves c f p b' a Hb Ha) as (Hd1 & Hd2 & _).
+    destruct HI as (HC & HL & HP). cbn [sp v mk] in HC, HL, HP.
+    unfold TInv. cbn [base tp round towed tsub tlog].
+    split; [exact Hd2|]. split; [exact Hd1|].
+    unfold step, step_gen in Hb. cbn [sp v mk fl_wlock fl_route good_flags] in Hb. unfold pos in Hb.
+    destruct p; try discriminate Ha; injection Ha as <-; destruct x; try discriminate Hx; cbn [is_recv dst];
+      case_c Hb c; brk_hyp Hb; clear Hb;
+      unfold common, lock_inv, phase_inv, idle in *;
+      repeat match goal with |- context [if ?b then _ else _] => destruct b end;
+      try (repeat split; first [assumption | exact I | lia]).
+    (* PU0, PU1, PU2: not counted by the running round, nothing received; PWait: back to idle, having received the round *)
+    all: try (destruct T6 as (Hw & ->); repeat split; first [assumption | lia | constructor]).
+    + (* PRecvO: a receipt *)
+      destruct T6 as (-> & Hlt & Hhd).
+      split; [|split; [constructor; [lia | exact T4]|repeat split; lia]].
+      destruct lg as [|b rest]; [exact I|]. destruct Hhd as [Hhd|Hhd]; [discriminate Hhd|].
+      cbn in Hhd. injection Hhd as ->. cbn [desc]. split; [lia | exact T3].
+Qed.
+
+(* ------------------------------------------------------------------------------------------------------- *)
+(* Runs                                                                                                      *)
+
+Lemma tagged_inv_from : forall sched t, Inv (base t) -> TInv t -> Inv (base (trun t sched)) /\ TInv (trun t sched).
+Proof.
+  induction sched as [|q rest IH]; intros t HI HT; [split; assumption|].
+  unfold trun in *. cbn [trun_gen]. fold (tstep t q).
+  destruct (tstep t q) as [t'|] eqn:Hq; [|apply IH; assumption].
+  apply IH; [eapply Inv_step; [exact HI | eapply tstep_base; exact Hq] | eapply TInv_step; eassumption].
+Qed.
+
+Theorem tagged_inv : forall senders others sched,
+  let t := trun (tinit senders others) sched in Inv (base t) /\ TInv t.
+Proof.
+  intros a b sched t. apply tagged_inv_from; [apply Inv_init | apply TInv_init].
+Qed.
+
+(* the base of a tagged run is a run of the counter abstraction: every theorem of Proofs/PubSubAbs.v about reachable
+   states (count, pong accounting, deadlock freedom, ...) holds of it *)
+Theorem tagged_base_is_abstract_run : forall sched t,
+  exists sched', base (trun t sched) = run (base t) sched'.
+Proof.
+  induction sched as [|q rest IH]; intros t; [exists []; reflexivity|].
+  unfold trun in *. cbn [trun_gen]. fold (tstep t q).
+  destruct (tstep t q) as [t'|] eqn:Hq.
+  - destruct (IH t') as [sc Hsc]. exists (pick_of q :: sc). unfold run. cbn [run_gen]. fold (step (base t) (pick_of q)).
+    rewrite (tstep_base t q t' Hq). exact Hsc.
+  - apply IH.
+Qed.
+
+(* ... and conversely the tagging loses no behaviour: whenever the counter abstraction can step, the same pick is enabled
+   for an anonymous thread or for the tagged one *)
+Lemma step_src_pos : forall c f p b' a, step (mk c f) p = Some b' -> src p = Some a -> 1 <= f a.
+Proof.
+  intros c f p b' a Hs Ha. unfold step, step_gen in Hs. cbn [sp v mk fl_wlock fl_route good_flags] in Hs. unfold pos in Hs.
+  destruct p; try discriminate Ha; injection Ha as <-; case_c Hs c; brk_hyp Hs; lia.
+Qed.
+
+Theorem tagging_is_complete : forall t p b', step (base t) p = Some b' ->
+  exists q t', pick_of q = p /\ tstep t q = Some t' /\ base t' = b'.
+Proof.
+  intros [[c f] x rd ow ts lg] p b' Hs. cbn [base] in Hs. change {| sp := c; v := f |} with (mk c f) in *.
+  unfold tstep, tstep_gen. cbn [base tp round towed tsub tlog]. change {| sp := c; v := f |} with (mk c f).
+  destruct (src p) as [a|] eqn:Ha.
+  - pose proof (step_src_pos c f p b' a Hs Ha) as Hpos.
+    destruct (var_beq x a) eqn:Hx.
+    + destruct (pos (f a - 1)) eqn:Hp.
+      * exists (Anon p). eexists. split; [reflexivity|]. unfold step in Hs. rewrite Hs, Ha, Hx. cbn [v mk]. rewrite Hp.
+        split; reflexivity.
+      * exists (Tag p). eexists. split; [reflexivity|]. unfold step in Hs. rewrite Hs, Ha, Hx. split; reflexivity.
+    + exists (Anon p). eexists. split; [reflexivity|]. unfold step in Hs. rewrite Hs, Ha, Hx. cbn [v mk].
+      replace (pos (f a - 0)) with true by (unfold pos; lia). split; reflexivity.
+  - exists (Anon p). unfold step in Hs. rewrite Hs, Ha. destruct (is_count (mk c f) p); eexists; (split; [reflexivity|]); split; reflexivity.
+Qed.
+
+(* ------------------------------------------------------------------------------------------------------- *)
+(* The identity clauses                                                                                      *)
+
+Lemma desc_rev_seq : forall l, desc l -> exists a, rev l = seq a (length l).
+Proof.
+  induction l as [|x [|y rest] IH]; intros H.
+  - exists 0. reflexivity.
+  - exists x. reflexivity.
+  - destruct H as (-> & H). destruct (IH H) as [a Ha]. exists a.
+    change (rev (S y :: y :: rest)) with (rev (y :: rest) ++ [S y]). rewrite Ha.
+    change (length (S y :: y :: rest)) with (S (length (y :: rest))). rewrite seq_S. f_equal. f_equal.
+    (* the last element of seq a n is y *)
+    assert (Hl : last (rev (y :: rest)) 0 = y).
+    { cbn [rev]. rewrite last_last. reflexivity. }
+    rewrite Ha in Hl. cbn [length] in *. rewrite seq_S, last_last in Hl. lia.
+Qed.
+
+(* The tagged subscription's receipts, oldest first, are CONSECUTIVE rounds of the global (sendMu) order: no round twice, no
+   gap, increasing. *)
+Theorem receipts_are_contiguous_run : forall senders others sched,
+  let t := trun (tinit senders others) sched in
+  exists a, rev (tlog t) = seq a (length (tlog t)).
+Proof.
+  intros a b sched t. destruct (tagged_inv a b sched) as (_ & (_ & _ & Hd & _)). apply desc_rev_seq, Hd.
+Qed.
+
+Theorem receipts_no_duplicate : forall senders others sched,
+  NoDup (tlog (trun (tinit senders others) sched)).
+Proof.
+  intros a b sched. destruct (receipts_are_contiguous_run a b sched) as [x Hx].
+  pose proof (seq_NoDup (length (tlog (trun (tinit a b) sched))) x) as H.
+  rewrite <- Hx in H. apply NoDup_rev in H. rewrite rev_involutive in H. exact H.
+Qed.
+
+(* It never receives a round that was counted before its own subscription was made (a fortiori none whose Send had returned
+   by then), nor one that does not exist yet. *)
+Theorem receipts_not_stale : forall senders others sched,
+  let t := trun (tinit senders others) sched in
+  Forall (fun n => tsub t < n <= round t) (tlog t).
+Proof. intros a b sched t. destruct (tagged_inv a b sched) as (_ & (_ & _ & _ & H & _)). exact H. Qed.
+
+(* Every receipt is a receipt of the RUNNING round, taken while the subscription is one of those counted by that Send. *)
+Theorem receipt_only_when_counted : forall senders others sched p t',
+  let t := trun (tinit senders others) sched in
+  tstep t (Tag p) = Some t' -> is_recv p = true ->
+  towed t = true /\ tp t = b0o /\ sp (base t) = S6 /\ tlog t' = round t :: tlog t.
+Proof.
+  intros a b sched p t' t Hq Hr. destruct (tagged_inv a b sched) as (HI & (T1 & T2 & _ & _ & _ & T6)). fold t in HI, T1, T2, T6.
+  destruct t as [[c f] x rd ow ts lg]. cbn [base tp round towed tsub tlog v sp] in *.
+  unfold tstep, tstep_gen in Hq. cbn [base tp round towed tsub tlog] in Hq.
+  destruct HI as (HC & HL & HP). cbn [sp v] in HC, HL, HP.
+  destruct p; try discriminate Hr; cbn [src] in Hq; destruct x; try discriminate Hq; cbn [var_beq] in Hq.
+  - (* PRecvO *) unfold step_gen in Hq. cbn [sp v] in Hq. destruct c; try discriminate Hq.
+    destruct (pos (f k) && pos (f b0o)); [|discriminate Hq]. injection Hq as <-. cbn [tlog is_recv].
+    destruct T6 as (-> & _). repeat split; reflexivity.
+  - (* PRecvN: never enabled *) exfalso. unfold step_gen in Hq. cbn [sp v] in Hq. destruct c; try discriminate Hq.
+    unfold phase_inv in HP. lia.
+Qed.
+
+(* Standing subscriptions are included: if the tagged subscription was counted by the round (it was established when Send
+   read `subscribers`) and it is still subscribed, Add(-1) not invoked, when that Send is past delivery (about to unlock,
+   to publish the pong count, or waiting for the pongs), then it HAS received that round. *)
+Theorem standing_included : forall senders others sched,
+  let t := trun (tinit senders others) sched in
+  (sp (base t) = S8 \/ sp (base t) = S9 \/ sp (base t) = S10) ->
+  towed t = true -> standing (tp t) = true ->
+  hd_error (tlog t) = Some (round t).
+Proof.
+  intros a b sched t Hc Hw Hs. destruct (tagged_inv a b sched) as (HI & (T1 & T2 & _ & _ & _ & T6)). fold t in HI, T1, T2, T6.
+  destruct t as [[c f] x rd ow ts lg]. cbn [base tp round towed tsub tlog v sp] in *. subst ow.
+  destruct HI as (HC & HL & HP). cbn [sp v] in HC, HL, HP.
+  destruct x; try discriminate Hs.
+  - (* b0o: impossible past delivery *) exfalso. unfold phase_inv, idle in HP. destruct Hc as [-> | [-> | ->]]; lia.
+  - exact T6.
+  - apply T6.
+Qed.
+
+(* ... and during the whole delivery a counted, still subscribed subscription is either waiting for its copy or has it and
+   is inside Wait; it is never idle-and-skipped. *)
+Theorem counted_during_delivery : forall senders others sched,
+  let t := trun (tinit senders others) sched in
+  (sp (base t) = S5 \/ sp (base t) = S6 \/ sp (base t) = S7) -> standing (tp t) = true ->
+  towed t = true /\ (tp t = b0o \/ (tp t = b1 /\ hd_error (tlog t) = Some (round t))).
+Proof.
+  intros a b sched t Hc Hs. destruct (tagged_inv a b sched) as (HI & (T1 & T2 & _ & _ & _ & T6)). fold t in HI, T1, T2, T6.
+  destruct t as [[c f] x rd ow ts lg]. cbn [base tp round towed tsub tlog v sp] in *.
+  destruct HI as (HC & HL & HP). cbn [sp v] in HC, HL, HP.
+  destruct x; try discriminate Hs.
+  - destruct T6 as (-> & _). split; [reflexivity | left; reflexivity].
+  - exfalso. unfold phase_inv in HP. destruct Hc as [-> | [-> | ->]]; lia.
+  - destruct T6 as (-> & H). split; [reflexivity | right; split; [reflexivity | exact H]].
+Qed.
+
+(* ------------------------------------------------------------------------------------------------------- *)
+(* Mutation sensitivity and non-vacuity                                                                      *)
+
+(* Without the write lock a late joiner takes the copy of a counted, standing subscription: Send is about to return 1 (S9)
+   although the tagged subscription, which it counted and which is still idle and subscribed, has received nothing. *)
+Definition tsched_steal : list tpick :=
+  [Tag PU0; Tag PU1; Tag PU2; Anon PSendStart; Anon PSendLock; Anon PS; Anon PS; Anon PS; Anon PS;
+   Anon PU0; Anon PU1; Anon PU2; Anon PRecvN; Anon PS; Anon PS; Anon PS].
+
+Theorem standing_included_without_wlock_refuted : exists sched,
+  let t := trun_gen no_wlock_flags (tinit 1 1) sched in
+  sp (base t) = S9 /\ v (base t) sent = 1 /\ towed t = true /\ standing (tp t) = true /\ tlog t = [].
+Proof. exists tsched_steal. vm_compute. repeat split. Qed.
+
+(* The tagged subscriber joins, two Sends (the second by a different call) each count it and an anonymous subscriber that
+   joined before the second; it receives rounds 1 and 2 and leaves; a third Send no longer reaches it. *)
+Definition tsched_demo : list tpick :=
+  [Tag PU0; Tag PU1; Tag PU2;
+   Anon PSendStart; Anon PSendLock; Anon PS; Anon PS; Anon PS; Anon PS; Tag PRecvO; Anon PS; Anon PS; Anon PS; Anon PS;
+   Tag PWait; Anon PS;
+   Anon PU0; Anon PU1; Anon PU2;
+   Anon PSendStart; Anon PSendLock; Anon PS; Anon PS; Anon PS; Anon PS; Anon PRecvO; Tag PRecvO; Anon PS; Anon PS; Anon PS; Anon PS].
+
+Example tagged_demo :
+  let t := trun (tinit 3 1) tsched_demo in
+  sp (base t) = S10 /\ v (base t) sent = 2 /\ round t = 2 /\ tlog t = [2; 1] /\ tp t = b1 /\ towed t = true /\ tsub t = 0.
+Proof. vm_compute. repeat split. Qed.
+
+Example tagged_demo_leaves :
+  let t := trun (tinit 3 1) (tsched_demo ++ [Tag PWait; Anon PWait; Anon PS; Tag PUnsubN; Tag PN2KN; Tag PN3K;
+                                              Anon PSendStart; Anon PSendLock; Anon PS; Anon PS; Anon PS; Anon PS;
+                                              Anon PRecvO; Anon PS; Anon PS; Anon PS]) in
+  sp (base t) = S9 /\ v (base t) sent = 1 /\ round t = 3 /\ tlog t = [2; 1] /\ tp t = fin /\ towed t = false.
+Proof. vm_compute. repeat split. Qed.
+
+(* a late joiner: subscribes during the acknowledgement phase of round 1, is not counted by it, receives round 2 first *)
+Example tagged_late_joiner :
+  let t := trun (tinit 2 1)
+      [Anon PU0; Anon PU1; Anon PU2; Anon PSendStart; Anon PSendLock; Anon PS; Anon PS; Anon PS; Anon PS; Anon PRecvO;
+       Anon PS; Anon PS; Anon PS; Anon PS; Tag PU0; Tag PU1; Tag PU2; Anon PWait; Anon PS;
+       Anon PSendStart; Anon PSendLock; Anon PS; Anon PS; Anon PS; Anon PS; Tag PRecvO] in
+  tlog t = [2] /\ tsub t = 1 /\ round t = 2 /\ towed t = true.
+Proof. vm_compute. repeat split. Qed.
+
+Print Assumptions tagged_inv.
+Print Assumptions tagged_base_is_abstract_run.
+Print Assumptions tagging_is_complete.
+Print Assumptions receipts_are_contiguous_run.
+Print Assumptions receipts_no_duplicate.
+Print Assumptions receipts_not_stale.
+Print Assumptions receipt_only_when_counted.
+Print Assumptions standing_included.
+Print Assumptions counted_during_delivery.
+Print Assumptions standing_included_without_wlock_refuted.
